@@ -91,11 +91,7 @@ def nn_opts(group, hals):
 
 
 def constrained_opts(draw, c):
-    names = sorted(xi.CONSTRAINTS)
-    if c["rank"] == 1:
-        # simplex_prox / soft_sparsity_prox change the shape of a one-column factor and constrained_parafac
-        # crashes (proximal-operator defect, reported to the lead; subject of C11/C12, not of C06)
-        names = [n for n in names if n not in ("simplex", "soft_sparse")]
+    names = sorted(xi.CONSTRAINTS)      # rank 1 with simplex / soft_sparsity included (crashed before c831d82)
     return {"constraint": draw(st.sampled_from(names)), "n_inner": draw(st.sampled_from([1, 3, 10]))}
 
 
